@@ -3,6 +3,7 @@ package main
 import (
 	"fmt"
 	"go/types"
+	"os"
 	"regexp"
 	"sort"
 	"strings"
@@ -173,6 +174,7 @@ func (e *Engine) callFunc(st *State, fn *ssa.Function, binds []Val, args []Val, 
 		if c.Kind != "lib" {
 			e.usedContracts[key] = true
 		}
+		e.pendingBinds = binds
 		e.applyContract(st, c, fn, fn.Signature, args, site, k)
 		return
 	}
@@ -589,6 +591,14 @@ func singleElem(v ssa.Value) (int, bool) {
 func (e *Engine) applyContract(st *State, c *Contract, fn *ssa.Function, sig *types.Signature, args []Val, site ssa.Instruction, k Cont) {
 	fr := st.top()
 	env := &Env{e: e, st: st, fr: fr, old: st.snapshot(), params: map[string]Val{}, bound: map[string]Val{}, pkg: c.Pkg, contract: c, callee: true, typeFn: fn}
+	// a closure under contract: its captured variables are visible by name (as pointers to their storage)
+	if fn != nil && len(e.pendingBinds) == len(fn.FreeVars) && len(fn.FreeVars) > 0 {
+		env.freeBinds = map[string]Val{}
+		for i, fv := range fn.FreeVars {
+			env.freeBinds[fv.Name()] = e.pendingBinds[i]
+		}
+	}
+	e.pendingBinds = nil
 	// bind parameters
 	names := e.paramNames(c, fn, sig)
 	if len(names) != len(args) {
@@ -603,7 +613,12 @@ func (e *Engine) applyContract(st *State, c *Contract, fn *ssa.Function, sig *ty
 		env.params[n] = a
 	}
 	label := e.instrLabel(fr, site)
+	forgetPre := e.forgetSet()
 	for _, r := range c.Requires {
+		if forgetPre[r.Label] {
+			// proved by the sibling contract of this function that does not forget the fact (see cmdCheck)
+			continue
+		}
 		goal := e.evalBool(st, env, r.E)
 		e.addObl(st, fmt.Sprintf("%s.call-pre.%s.%s", e.oblPrefix(fr.fn), label, r.Label), "call-pre", c.Key+" requires "+r.Src, goal)
 		st.assume(goal)
@@ -618,6 +633,14 @@ func (e *Engine) applyContract(st *State, c *Contract, fn *ssa.Function, sig *ty
 		e.addObl(st, fmt.Sprintf("%s.decreases.%s", e.oblPrefix(fr.fn), label), "decreases", c.Decreases.Src, goal)
 	}
 	// havoc the frame
+	if c.Opts["frame"] == "off" && fn != nil && !c.ModAll {
+		for h := range e.P.modset(e, fn) {
+			if os.Getenv("SPECV_DEBUG_MODSET") != "" {
+				fmt.Fprintf(os.Stderr, "modset %s: %s\n", c.Key, h)
+			}
+			e.heapHavoc(st, h)
+		}
+	}
 	e.havocModifies(st, env, c)
 	// the callee may allocate: results may refer to objects newer than the current watermark
 	na := e.S.Fresh("alloc", "Int")
@@ -637,13 +660,44 @@ func (e *Engine) applyContract(st *State, c *Contract, fn *ssa.Function, sig *ty
 	env.st = st
 	env.results = rs
 	env.inEnsures = true
-	for _, en := range c.Ensures {
-		// clauses labelled local-* talk about the callee's internal ghost state
-		// (e.g. the word seen by its CAS); they are proved there but not exported.
-		if strings.HasPrefix(en.Label, "local-") {
-			continue
+	forget := e.forgetSet()
+	assumeEnsures := func(cc *Contract) {
+		// the callee's ghost variables: their final values exist (the callee proved its ensures for them);
+		// the caller sees them as fresh witnesses, readable afterwards as callghost_<name>
+		for _, g := range cc.Ghosts {
+			t := e.P.resolveType(g.Type, cc.Pkg, fn)
+			v := term(e.S.Fresh("cg_"+g.Name, e.sortOf(t)), t)
+			env.bound[g.Name] = v
+			st.ghost["callghost_"+g.Name] = v
 		}
-		st.assume(e.evalBool(st, env, en.E))
+		for _, en := range cc.Ensures {
+			// clauses labelled local-* talk about the callee's internal ghost state
+			// (e.g. the word seen by its CAS); they are proved there but not exported.
+			if strings.HasPrefix(en.Label, "local-") || forget[en.Label] {
+				continue
+			}
+			st.assume(e.evalBool(st, env, en.E))
+		}
+	}
+	assumeEnsures(c)
+	// further contracts of the same function ("Func@variant") whose preconditions are among the
+	// main contract's (just checked): their ensures hold as well
+	for _, v := range e.P.variantsOf(c) {
+		ok := true
+		for _, r := range v.Requires {
+			found := false
+			for _, mr := range c.Requires {
+				if mr.Src == r.Src {
+					found = true
+				}
+			}
+			ok = ok && found
+		}
+		if ok {
+			env.contract = v
+			assumeEnsures(v)
+			env.contract = c
+		}
 	}
 	if c.Kind == "lib" || c.Trusted {
 		e.noteAssumption("assumed contract: " + c.Key)
@@ -765,6 +819,23 @@ func (e *Engine) resolveModifies(st *State, env *Env, m string) modLoc {
 	}
 	if _, ok := st.ghost[m]; ok {
 		return modLoc{ghost: m}
+	}
+	// a captured variable of a closure under contract: its storage cell
+	var cell *Val
+	if env.callee && env.freeBinds != nil {
+		if p, ok := env.freeBinds[m]; ok {
+			cell = &p
+		}
+	} else if env.fr != nil && env.fr.freeVars != nil {
+		if p, ok := env.fr.freeVars[m]; ok {
+			cell = &p
+		}
+	}
+	if cell != nil && cell.K == kTerm {
+		if pt, ok := cell.Typ.Underlying().(*types.Pointer); ok {
+			n, srt := e.boxMapName(pt.Elem())
+			return modLoc{heap: n, sort: srt, ref: cell.T}
+		}
 	}
 	if strings.HasPrefix(m, "elems(") && strings.HasSuffix(m, ")") {
 		ex, err := ParseExpr(m[6 : len(m)-1])
